@@ -19,7 +19,7 @@ def plan(tier):
     n = 200 if tier == 'quick' else 4000
     return dict(n_cases=n, shards=16, min_nontrivial=n // 3,
                 min_tags={'mode:geometry': n // 8, 'mode:bookkeeping': n // 8, 'mode:fext': n // 5, 'mode:static': n // 8,
-                          'load:pressure': n // 20, 'load:axial': n // 20, 'load:torque': n // 40, 'load:point': n // 20, 'pd:C': n // 40},
+                          'load:pressure': n // 20, 'load:spl': n // 60, 'load:axial': n // 20, 'load:torque': n // 70, 'load:point': n // 20, 'pd:C': n // 60},
                 watchdog_s=1800 if tier == 'quick' else 10000,
                 rule='CLPT and FSDT shell models; geometry from each admissible pair of (r1,r2,H,L) plus alpha; point forces anywhere (constant and '
                      'incremental), pressure P and P_inc, axial load Fc or prescribed shortening uTM (pdC), torque T/T_inc (pdT off) or prescribed twist '
@@ -132,6 +132,11 @@ def shell_loads(rng, d, allow_pressure=True):
         loads['forces'] = [[float(rng.uniform(0, d['L'])), float(rng.uniform(0, 360))] + [float(v) for v in rng.normal(size=3) * 10 ** rng.uniform(0, 3)] for _ in range(n)]
         loads['forces_inc'] = [[float(rng.uniform(0, d['L'])), float(rng.uniform(0, 360))] + [float(v) for v in rng.normal(size=3) * 10 ** rng.uniform(0, 3)] for _ in range(int(rng.integers(0, 3)))]
         kinds.append('point')
+    if rng.random() < 0.3:
+        # single perturbation loads through the dedicated helper: a radial force -PL at x = pt*L, theta = thetadeg
+        loads['spls'] = [[float(rng.normal() * 10 ** rng.uniform(0, 3)), float(rng.uniform(0.05, 0.95)), float(rng.uniform(-180, 360)), bool(rng.random() < 0.4)]
+                         for _ in range(int(rng.integers(1, 3)))]
+        kinds.append('spl')
     if allow_pressure and rng.random() < 0.5:
         loads['P'] = float(rng.normal() * 1e4); loads['P_inc'] = float(rng.normal() * 1e4) if rng.random() < 0.5 else 0.0
         kinds.append('pressure')
@@ -149,20 +154,25 @@ def shell_loads(rng, d, allow_pressure=True):
 
 def build_loaded(d, loads):
     cc = gen.build_shell(d)
+    # distributed loads first: add_SPL evaluates the geometry and the axial line load of the object as it is at that moment
+    for k in ('P', 'P_inc', 'Fc', 'T', 'T_inc', 'MLA', 'xiLA'):
+        if k in loads:
+            setattr(cc, k, loads[k])
     for f in loads.get('forces', []):
         cc.add_force(*f, increment=False)
     for f in loads.get('forces_inc', []):
         cc.add_force(*f, increment=True)
-    for k in ('P', 'P_inc', 'Fc', 'T', 'T_inc', 'MLA', 'xiLA'):
-        if k in loads:
-            setattr(cc, k, loads[k])
+    for PL, pt, th, incr in loads.get('spls', []):
+        cc.add_SPL(PL, pt=pt, thetadeg=th, increment=incr)
     return cc
 
 
 def virtual_work(cc, d, loads, cfull, inc):
     """work of the loads on the field ConeCyl.uvw reports for the full amplitude vector"""
     W = 0.0; S = 0.0
-    for lst, fac in ((loads.get('forces', []), 1.0), (loads.get('forces_inc', []), inc)):
+    spl_c = [[pt * d['L'], th, 0.0, 0.0, -PL] for PL, pt, th, incr in loads.get('spls', []) if not incr]
+    spl_i = [[pt * d['L'], th, 0.0, 0.0, -PL] for PL, pt, th, incr in loads.get('spls', []) if incr]
+    for lst, fac in ((loads.get('forces', []) + spl_c, 1.0), (loads.get('forces_inc', []) + spl_i, inc)):
         for x, thdeg, fx, ft, fz in lst:
             u, v, w = [float(np.asarray(o).ravel()[0]) for o in cc.uvw(cfull.copy(), xs=np.array([x]), ts=np.array([np.deg2rad(thdeg)]))[:3]]
             W += fac * (fx * u + ft * v + fz * w)
@@ -260,6 +270,8 @@ def case_fext(c, rng, tier):
     c.judge('fext(inc) = fext(0) + inc*(fext(1) - fext(0))', float((np.abs(fext - (f0 + inc * (f1 - f0))) / sc).max()), 1e-12)
     # fext(0) carries only the constant parts: constant point forces and constant pressure
     const = {k: v for k, v in loads.items() if k in ('forces', 'P', 'T')}
+    if 'spls' in loads:
+        const['spls'] = [sp for sp in loads['spls'] if not sp[3]]
     dz = dict(d); dz['uTM'] = 0.0; dz['thetaTdeg'] = 0.0
     fc = np.asarray(build_loaded(dz, const).calc_fext(inc=1., silent=True))
     c.judge('fext(0) equals the vector of the constant loads alone', float((np.abs(f0 - fc) / (np.abs(f0) + np.abs(fc) + 1e-9 * (np.abs(fc).max() + 1e-300) + 1e-300)).max()), 1e-12)
